@@ -95,6 +95,11 @@ func (db *DB) compact(sourceSeg *segment) (CompactionResult, error) {
 
 	db.mu.Lock()
 	defer db.mu.Unlock()
+	// Flush the promoted records (and anything that superseded the reclaimed ones) before the
+	// only other copy is removed.
+	if err := db.datalog.sync(); err != nil {
+		return cr, err
+	}
 	err = db.datalog.removeSegment(sourceSeg)
 	return cr, err
 }
